@@ -555,7 +555,7 @@ func init() {
 		Flavours: releaseThenGo126,
 		Required: []string{"write/inside", "write/last-byte", "write/at-end", "write/beyond-end", "write/truncated", "write/empty-buffer", "writeat/at-or-beyond-end", "writeat/truncated", "writeat/ends-exactly-at-limit",
 			"writeat/negative-offset", "seek/whence=0", "seek/whence=1", "seek/whence=2", "seek/invalid-whence", "seek/before-start", "seek/beyond-end", "fault/hit-in-Write", "fault/hit-in-WriteAt", "fault/late-error-style",
-			"section/n=0", "attowriter", "write-after-seek", "write-after-partial-write", "section/ends-at-MaxInt64", "writeat/offset=MaxInt64", "underlying/*os.File", "underlying/*SectionWriter", "underlying/*SectionWriter/inner-reaches-beyond-outer", "attowriter/over-a-SectionWriter"},
+			"section/n=0", "attowriter", "write-after-seek", "write-after-partial-write", "section/ends-at-MaxInt64", "writeat/offset=MaxInt64", "underlying/*os.File", "underlying/*SectionWriter", "underlying/*SectionWriter/inner-reaches-beyond-outer", "attowriter/over-a-SectionWriter", "attowriter/owner-moves-its-cursor", "attowriter/two-views-of-one-file"},
 		Families: func(c *mon.Config) []mon.Family {
 			reps := c.Pick(80, 12000)
 			return []mon.Family{
@@ -571,6 +571,7 @@ func init() {
 					p := c18Plan{nested: true, outerBase: int64(r.Pick(0, 1, 10, 1000)), outerLen: ol, base: int64(r.Intn(int(ol) + 3)), n: int64(r.Pick(0, 1, 3, 10, 29, 200))}
 					c18History(w, p, idx)
 				}},
+				{Name: "at-to-writer-file", Env: 2, N: c.Pick(300, 30000), Run: c18AtToWriterFile},
 				{Name: "near-maxint64", N: c.Pick(3000, 300000), Run: c18NearMax},
 			}
 		},
@@ -760,10 +761,22 @@ func c18AtToWriter(w *mon.W, idx int) {
 	wr := iohelper.AtToWriter(under, off)
 	c := &c18Mon{w: w, wr: wr, atw: true, dev: dev, base: off, n: math.MaxInt64 - off, limit: math.MaxInt64, cursor: off,
 		image: map[int64]byte{}, trans: map[uint64]struct{}{}, faultCls: cls}
+	// The underlying writer belongs to someone else too: when it has a cursor of its own (a SectionWriter here, a
+	// file in c18AtToWriterFile) its owner moves that cursor between our writes, and a second AtToWriter view of the
+	// same underlying writer exists. A view addresses the underlying writer by absolute offsets only.
+	var owner io.Seeker
+	if sk, ok := under.(io.Seeker); ok {
+		owner = sk
+		_ = iohelper.AtToWriter(under, off+1) // a second view, created after ours
+	}
 	h := gen.Hash64(77, uint64(off), uint64(dev.fault.kind), uint64(dev.fault.at))
 	for k := 1 + r.Intn(12); k > 0; k-- {
 		n := r.Pick(0, 1, 2, 17, r.Intn(120))
 		h = gen.Hash64(h, uint64(n))
+		if owner != nil && r.Bool() {
+			owner.Seek(int64(r.Intn(40)), io.SeekStart)
+			w.Bucket("attowriter/owner-moves-its-cursor")
+		}
 		if !c.Write(n) {
 			return
 		}
@@ -776,6 +789,77 @@ func c18AtToWriter(w *mon.W, idx int) {
 	w.Sample(func() interface{} {
 		return mon.D{"AtToWriter_offset": off, "fault": dev.fault.String(), "history": c.hist, "bytes_in_device": len(dev.image)}
 	})
+}
+
+// c18AtToWriterFile: two AtToWriter views of one real *os.File written alternately, while the file's owner moves
+// the file cursor and appends through it; the file is read back after every op.
+func c18AtToWriterFile(w *mon.W, idx int) {
+	r := w.Rng
+	f, err := os.CreateTemp(w.Cfg.WorkDir, "c18-atw-*.bin")
+	if err != nil {
+		w.Harness("c18/tempfile", mon.D{"err": err.Error()})
+		return
+	}
+	defer func() {
+		f.Close()
+		os.Remove(f.Name())
+	}()
+	offs := [2]int64{int64(r.Pick(0, 5, 100)), int64(r.Pick(300, 1000, 4096))}
+	w.Op = "AtToWriter(*os.File)"
+	views := [2]io.Writer{iohelper.AtToWriter(f, offs[0]), iohelper.AtToWriter(f, offs[1])}
+	cur := offs
+	image := map[int64]byte{}
+	var hist []string
+	seq := byte(0)
+	for k := 2 + r.Intn(10); k > 0; k-- {
+		v := r.Intn(2)
+		n := r.Pick(0, 1, 3, 17, r.Intn(60))
+		buf := make([]byte, n)
+		for i := range buf {
+			seq++
+			if seq == 0 {
+				seq = 1
+			}
+			buf[i] = seq
+		}
+		if r.Intn(3) == 0 {
+			f.Seek(int64(r.Intn(200)), io.SeekStart) // the owner's cursor; views must not depend on it
+			hist = append(hist, "owner.Seek")
+		}
+		hist = append(hist, fmt.Sprintf("view%d.Write(len=%d)", v, n))
+		w.Op, w.A, w.B = "AtToWriter(*os.File).Write", int64(v), int64(n)
+		gn, gerr := views[v].Write(buf)
+		w.Eval(1)
+		if gn != n || gerr != nil {
+			w.Fail("AtToWriter/file/count-or-error", mon.D{"history": hist, "view_offsets": offs, "got_n": gn, "err": fmt.Sprint(gerr), "expected_n": n})
+			return
+		}
+		for i, b := range buf {
+			image[cur[v]+int64(i)] = b
+		}
+		cur[v] += int64(n)
+		got, rerr := os.ReadFile(f.Name())
+		if rerr != nil {
+			w.Harness("c18/readback", mon.D{"err": rerr.Error()})
+			return
+		}
+		for p, b := range got {
+			if image[int64(p)] != b {
+				w.Fail("AtToWriter/file/content-differs", mon.D{"history": hist, "view_offsets": offs, "pos": p, "got": b, "expected": image[int64(p)], "what": "two AtToWriter views of one *os.File written alternately while the owner moves the file cursor"})
+				return
+			}
+		}
+		for p, b := range image {
+			if b != 0 && p >= int64(len(got)) {
+				w.Fail("AtToWriter/file/content-differs", mon.D{"history": hist, "view_offsets": offs, "pos": p, "expected": b, "file_len": len(got), "what": "byte missing from the file"})
+				return
+			}
+		}
+	}
+	w.Bucket("attowriter/two-views-of-one-file")
+	w.Extra("histories", 1)
+	w.Extra("ops", int64(len(hist)))
+	w.Distinct(gen.Hash64(0xf11e, uint64(offs[0]), uint64(offs[1]), gen.HashStr(fmt.Sprint(hist))))
 }
 
 // c18NearMax: sections that end at or just below MaxInt64 (AtToWriter's own limit) - Write requests
